@@ -25,6 +25,7 @@ PRACTICE = os.path.join(core.REPO, "tests", "practice")
 def shards(tier):
     n = 8
     specs = [{"part": "practice", "i": i, "n": n, "variants": 4 if tier == "quick" else 300} for i in range(n)]
+    specs.append({"part": "line-ends"})
     k = 16
     per = (1600 if tier == "quick" else 50000) // k
     for i in range(k):
@@ -238,7 +239,31 @@ def practice_case(name, seed):
     return a, b, rules, len(edits), new
 
 
+STATEMENTS = ["\tmov #100, r0", "\t.word 100., 125.", "vol:\t100., 125.", "\t100, 125", "tab:\t1, ., tab+2", "\t.byte 1, 2\n\t.even", "\tclr @#177560", "\tbr .+2", "lab:", "x = 5",
+              "\t.ascii \"ab\"\n\t.even", "\tmov 'a, r1", "\t.word ^Rabc", "\t.word \"ab", "\tmov #^C1, r2", "\t.word 1 + 2", "\t.word <1>", "\t.blkw 2", "\tnop", "\tsob r1, .",
+              "\t.repeat 2 { nop }", "\t.rad50 /abc/", "\tjsr pc, @(sp)+", "\t.word -1", "\tmov r1, 2(r2)", "\tmov r1,2(r2)", "\t.even", "\tmake_raw", "\t.word 'a'"]
+LINE_ENDS = ["", " ", "\t", ";c", "; c", " ;c", "\t; comment 1, 2", ";", " ; ;", ";'", ";\"", "\r"]
+
+
 def run_shard(spec, ctx):
+    if spec["part"] == "line-ends":
+        # what follows a statement on its line (nothing, blanks, a comment glued to the last token or set off by blanks) does not matter
+        for stmt in STATEMENTS:
+            ref = None
+            for end in LINE_ENDS:
+                lines = stmt.split("\n")
+                text = "\n".join([lines[0] + end] + lines[1:]) + "\n\thalt\n"
+                out = driver.assemble([("/vf/le.mac", text)])
+                ctx.case(text, True, ["line-end"], sample=text if (stmt, end) == ("vol:\t100., 125.", ";c") else None)
+                if end == "":
+                    ref = out
+                    if out.kind != "ok":
+                        ctx.fail("line-ends:reference-statement", f"{text!r}: {oracle.brief(out)}", {"kind": "expect", "tree": {"main.mac": text}, "mains": ["main.mac"], "charset": "bk", "expect": {"kind": "ok", "base": None, "code": ""}})
+                        break
+                elif out.kind != "ok" or out.code != ref.code or out.base != ref.base:
+                    case = {"kind": "equiv", "variants": [oracle.single("\n".join(lines) + "\n\thalt\n"), oracle.single(text)]}
+                    ctx.fail("line-ends:differs", f"{stmt!r} followed by {end!r}: {oracle.brief(out)}; alone: {oracle.brief(ref)}", case)
+        return
     if spec["part"] == "practice":
         for name in sorted(os.listdir(PRACTICE))[spec["i"]::spec["n"]]:
             for v in range(spec["variants"]):
